@@ -288,6 +288,8 @@ class TypedNode(Node):
                 f"`before=node` ({before._parent}) "
                 f"must be a child of target node ({self})"
             )
+        elif before is not None and not isinstance(before, (bool, int, Node)):
+            raise TypeError(f"`before` must be a bool, int, or Node: {before!r}")
 
         source_node = None
         factory = self._tree._node_factory
